@@ -37,6 +37,8 @@ var c18Env = map[string]ref.V{
 	"lf": univ.L(ref.Float(2.5), ref.Float(0.5)),
 	"ln": univ.L(univ.L(ref.Int(1)), univ.L(ref.Int(2), ref.Int(3))),
 	"le": univ.L(),
+	"lw": univ.L("a ", " "),  // elements that are, or end with, whitespace
+	"lv": univ.L(" ", "\tb"), // ... or begin with it
 	"m":  ref.NewMap("a", ref.Int(1), "b", ref.Int(2)),
 	"mm": ref.NewMap("a", "x", "l", univ.L(ref.Int(1), ref.Int(2)), "n", ref.NewMap("d", ref.Int(7))),
 	"lm": univ.L(ref.NewMap("k", ref.Int(2)), ref.NewMap("k", ref.Int(1))),
@@ -89,6 +91,9 @@ var c18Templates = []c18Tpl{
 	{src: "{{ lm | map: 'k' | join }}|{{ lm[0].k }}|{{ lm.first.k }}|{% for x in lm %}{{ x.k }}{% endfor %}|{{ lm | size }}|{{ lm[1]['k'] }}|{{ lm.last.size }}"},
 	{src: "{{ lm | sort: 'k' | map: 'k' | join }}|{{ lm | map: 'k' | sort | join }}", noMapSlice: true, noElemPtr: true},
 	{src: "{% if l %}A{% endif %}{% if le %}B{% endif %}{% if ls contains 'a' %}C{% endif %}{% if ln.first == ln[0] %}D{% endif %}{% assign q = l %}{{ q | join }}{% capture c %}{{ ls | join }}{% endcapture %}{{ c }}"},
+	// printing next to whitespace-control markers: what a marker strips cannot depend on how the value is held
+	{src: "[{{ lw }}{{- s }}]|[{{ s -}}{{ lv }}]|[{{ lw -}} ]|[ {{- lv }}]|[{{ lv }}{{- s }}]|[{{ s -}}{{ lw }}]|{% for x in lw %}<{{ x -}}{{- x }}>{% endfor %}|[{{ lw | join: '' }}{{- s }}]|[{{ u }}{{- s }}]|{{ lw }}{%- if t -%}{{ lw }}{%- endif -%}{{ lw }}"},
+	{src: "[{{ ls }}{{- s }}]|[{{ l -}} {{ ln }}]|[{{ le }}{{- s }}]|[{{ e }}{{- s }}]|[{{ z }}{{- s }}]"},
 	// maps: lookup and size
 	{src: "{{ m.a }}|{{ m['b'] }}|{{ m.size }}|{{ m.zz }}|{{ mm.a }}|{{ mm.l | join }}|{{ mm.l.first }}|{{ mm.n.d }}|{{ mm['n']['d'] }}|{{ mm.size }}"},
 	{src: "{{ m.a | plus: m.b }}|{% if m.a == 1 %}A{% endif %}{% if mm.a == 'x' %}B{% endif %}{% for x in mm.l %}{{ x }}{% endfor %}{% if m.zz %}C{% else %}D{% endif %}"},
